@@ -145,7 +145,7 @@ func ConfigWide(r *rand.Rand) originium.Config {
 		MemtableByteThreshold:  []int{1, 64, 300, 1000, 4096, 16384, 65536}[r.Intn(7)],
 		ImmutableBuffer:        []int{0, 1, 3, 10, 16}[r.Intn(5)],
 		DataBlockByteThreshold: []int{0, 1, 32, 200, 4096, 16384, 65536}[r.Intn(7)],
-		L0TargetNum:            []int{0, 1, 2, 4, 5, 6}[r.Intn(6)],
+		L0TargetNum:            []int{0, 1, 2, 4, 6, 8, 12}[r.Intn(7)],
 		LevelRatio:             []int{0, 1, 2, 4, 10}[r.Intn(5)],
 	}
 }
